@@ -163,10 +163,10 @@ def reuseCmd : P String := do
   P.eof
   match decodeText ha, decodeText hb with
   | some ta, some tb =>
-    match parseModelInfo (splitLines ta) {} [] with
+    match parseModelInfo flags (splitLines ta) {} [] with
     | .error _ => pure "skip reuse_first_preamble_error"
     | .ok (prev, _) =>
-      let huge : Bool := match parseModelInfo (splitLines tb) {} [] with
+      let huge : Bool := match parseModelInfo flags (splitLines tb) {} [] with
         | .ok (p, _) => decide (p.S * p.A * (max p.S p.O) > 100000) || decide (p.S > 1000) || decide (p.A > 1000) || decide (p.O > 1000)
         | .error _ => false
       if huge then pure "skip huge_sizes" else
@@ -194,7 +194,7 @@ def parseCmd : P String := do
   | some text =>
   -- guard the driver against astronomically large declared sizes BEFORE running the main pass
   -- (a `*` over 2^64-1 actions would be expanded eagerly by the model)
-  let huge : Bool := match parseModelInfo (splitLines text) {} [] with
+  let huge : Bool := match parseModelInfo flags (splitLines text) {} [] with
     | .ok (p, _) => decide (p.S * p.A * (max p.S p.O) > 100000) || decide (p.S > 1000) || decide (p.A > 1000) || decide (p.O > 1000)
     | .error _ => false
   let mp := if huge then .error .runtime else parse flags k text
